@@ -96,6 +96,14 @@ func warnInertDeclarations(module *ast.Module) {
 	}
 }
 
+// compiledRouteKey names a route's bytecode in the map setupRoutes returns.
+// The path alone is not enough: GET /items and POST /items are different
+// routes with different bodies, and keying by path made both run whichever
+// was compiled last.
+func compiledRouteKey(route *ast.Route) string {
+	return fmt.Sprintf("%v %s", route.Method, route.Path)
+}
+
 // setupRoutes handles the common logic of determining execution mode, compiling routes,
 // and setting up the router. Used by both startServer and startDevServerInternal.
 // filePath is the path to the source file, used for resolving relative module imports.
@@ -105,6 +113,9 @@ func setupRoutes(module *ast.Module, filePath string, forceInterpreter ...bool) 
 		useCompiler = false
 	}
 	compiledRoutes = make(map[string][]byte)
+	// Each declaration keeps its own bytecode, also when a method and path
+	// are declared twice (the earlier declaration is the one the router picks).
+	compiledByRoute := make(map[*ast.Route][]byte)
 
 	// Any provider injection forces interpreter mode: the VM cannot execute
 	// provider method calls, so a compiled route fails at request time with
@@ -151,7 +162,8 @@ func setupRoutes(module *ast.Module, filePath string, forceInterpreter ...bool) 
 					useCompiler = false
 					break
 				}
-				compiledRoutes[route.Path] = bytecode
+				compiledRoutes[compiledRouteKey(route)] = bytecode
+				compiledByRoute[route] = bytecode
 			}
 		}
 	}
@@ -171,7 +183,7 @@ func setupRoutes(module *ast.Module, filePath string, forceInterpreter ...bool) 
 	if useCompiler {
 		for _, item := range module.Items {
 			if route, ok := item.(*ast.Route); ok {
-				bytecode := compiledRoutes[route.Path]
+				bytecode := compiledByRoute[route]
 				regErr := registerCompiledRoute(router, route, bytecode, wsServer.GetHub())
 				if regErr != nil {
 					printWarning(fmt.Sprintf("Failed to register route %s: %v", route.Path, regErr))
